@@ -299,6 +299,7 @@ PROPS["C16"] = {
     "runs": [
         {"entry": M + "/pkg/asa.VerifDeterminismASA", "quick": {"N": "1"}, "thorough": {"N": "2"}, "extra": {"maxpaths": 3000000}},
         {"entry": M + "/pkg/nsx.VerifDeterminismNSX", "quick": {"N": "1"}, "thorough": {"N": "2"}, "extra": {"maxpaths": 3000000}},
+        {"entry": M + "/pkg/ios.VerifDeterminismIOS", "covers": ["two crypto map entries with the same peer (device)", "two crypto map entries with the same peer (target)"]},
         {"entry": M + "/pkg/panos.VerifDeterminismPAN", "covers": ["two vsys with changes", "two target vsys unknown on the device", "two vsys without the NetSPoC marker"]},
         {"entry": M + "/pkg/linux.VerifDeterminismLinux", "quick": {"light": "1"}, "thorough": {"light": "0"}, "extra": {"maxpaths": 3000000},
          "covers": ["rules differ in two or more options"]},
